@@ -24,15 +24,69 @@ Definition case_id (c : ccase) : N :=
 
 Definition id_iter (l : list pool) : list pool := l.
 
+(* ---- the comparison of the model's result with the implementation's.  Exact (Model/CfgFull.v
+   *_eqb) wherever a property or a consumer depends on the order; fields that every consumer
+   treats as a SET / an any-match list are compared up to order (and repetition for the two name
+   sets), so that a change of their in-memory order is not reported:
+     BGPAdvertisement.Peers          set of peer names      (slices.Contains only)
+     L2Advertisement.Interfaces      set of interface names (containsAdvertisement and the speaker use sets)
+     Pool.L2Advertisements           any-match list (poolMatchesNodeL2, interface union); up to order
+     ServiceAllocation.ServiceSelectors, Peer.NodeSelectors   any-match lists; up to order
+   Kept exact: Pool.CIDR order (first-fit allocation order, PoolForIP), Pool.BGPAdvertisements
+   order (order in which routes are built / merged), ByNamespace lists and ByServiceSelector
+   (C18: part of the value; the allocator's candidate order), every map (already canonical). *)
+Fixpoint remove_first {A} (e : A -> A -> bool) (x : A) (l : list A) : option (list A) :=
+  match l with
+  | [] => None
+  | y :: r => if e x y then Some r else match remove_first e x r with Some r' => Some (y :: r') | None => None end
+  end.
+Fixpoint perm_eqb {A} (e : A -> A -> bool) (a b : list A) : bool :=
+  match a with
+  | [] => match b with [] => true | _ => false end
+  | x :: a' => match remove_first e x b with Some b' => perm_eqb e a' b' | None => false end
+  end.
+Definition bgpadv_obs (a b : bgpadv) : bool :=
+  (ba_name a =? ba_name b)%N && (ba_agg4 a =? ba_agg4 b)%N && (ba_agg6 a =? ba_agg6 b)%N &&
+  (ba_lp a =? ba_lp b)%N && lN_eqb (ba_comms a) (ba_comms b) && lN_eqb (ba_nodes a) (ba_nodes b) &&
+  lN_eqb (setN (ba_peers a)) (setN (ba_peers b)).
+Definition l2adv_obs (a b : l2adv) : bool :=
+  Bool.eqb (la_all a) (la_all b) && lN_eqb (la_nodes a) (la_nodes b) && lN_eqb (setN (la_ifaces a)) (setN (la_ifaces b)).
+Definition salloc_obs (a b : salloc) : bool :=
+  (sa_prio a =? sa_prio b)%N && lN_eqb (sa_nss a) (sa_nss b) && perm_eqb sel_eqb (sa_sels a) (sa_sels b).
+Definition pool_obs (a b : pool) : bool :=
+  (p_name a =? p_name b)%N && list_eqb prefix_eqb (p_cidrs a) (p_cidrs b) &&
+  Bool.eqb (p_avoid a) (p_avoid b) && Bool.eqb (p_auto a) (p_auto b) &&
+  list_eqb bgpadv_obs (p_bgp a) (p_bgp b) && perm_eqb l2adv_obs (p_l2 a) (p_l2 b) &&
+  opt_eqb salloc_obs (p_alloc a) (p_alloc b).
+Definition out_obs (a b : pools_out) : bool :=
+  list_eqb pool_obs (po_pools a) (po_pools b) &&
+  list_eqb (fun x y => (fst x =? fst y)%N && lN_eqb (snd x) (snd y)) (po_byns a) (po_byns b) &&
+  lN_eqb (po_bysel a) (po_bysel b).
+Definition peer_obs (a b : peer) : bool :=
+  peer_eqb {| p_pname := p_pname a; p_myasn := p_myasn a; p_asn := p_asn a; p_dyn := p_dyn a; p_addr := p_addr a;
+              p_iface := p_iface a; p_src := p_src a; p_port := p_port a; p_hold := p_hold a; p_keep := p_keep a;
+              p_connect := p_connect a; p_router := p_router a; p_nsels := []; p_password := p_password a;
+              p_secretpw := p_secretpw a; p_pwref := p_pwref a; p_bfd := p_bfd a; p_graceful := p_graceful a;
+              p_multihop := p_multihop a; p_vrf := p_vrf a; p_disablemp := p_disablemp a |}
+           {| p_pname := p_pname b; p_myasn := p_myasn b; p_asn := p_asn b; p_dyn := p_dyn b; p_addr := p_addr b;
+              p_iface := p_iface b; p_src := p_src b; p_port := p_port b; p_hold := p_hold b; p_keep := p_keep b;
+              p_connect := p_connect b; p_router := p_router b; p_nsels := []; p_password := p_password b;
+              p_secretpw := p_secretpw b; p_pwref := p_pwref b; p_bfd := p_bfd b; p_graceful := p_graceful b;
+              p_multihop := p_multihop b; p_vrf := p_vrf b; p_disablemp := p_disablemp b |} &&
+  perm_eqb sel_eqb (p_nsels a) (p_nsels b).
+Definition fconfig_obs (a b : fconfig) : bool :=
+  out_obs (fc_pools a) (fc_pools b) && list_eqb peer_obs (fc_peers a) (fc_peers b) &&
+  list_eqb bfd_eqb (fc_bfds a) (fc_bfds b) && (fc_extras a =? fc_extras b)%N.
+
 Definition case_ok (c : ccase) : bool :=
   match c with
-  | CFor _ r res => opt_eqb out_eqb (pools_for id_iter r) res
-  | CToConfig _ r res => opt_eqb out_eqb (to_config ksorter (pools_for id_iter) r) res
+  | CFor _ r res => opt_eqb out_obs (pools_for id_iter r) res
+  | CToConfig _ r res => opt_eqb out_obs (to_config ksorter (pools_for id_iter) r) res
   | CSorted _ i o => lN_eqb (sortN i) o
   | CParse _ a res => opt_eqb (list_eqb prefix_eqb) (parse_addr a) res
   | COverlap _ a b res => Bool.eqb (overlap a b) res
-  | CFull _ m fr res => opt_eqb fconfig_eqb (full_to_config ksorter id_iter m fr) res
-  | CFullFor _ m fr res => opt_eqb fconfig_eqb (full_for id_iter m fr) res
+  | CFull _ m fr res => opt_eqb fconfig_obs (full_to_config ksorter id_iter m fr) res
+  | CFullFor _ m fr res => opt_eqb fconfig_obs (full_for id_iter m fr) res
   end.
 
 Definition mismatches (cs : list ccase) : list N := map case_id (filter (fun c => negb (case_ok c)) cs).
